@@ -138,8 +138,8 @@ def truth(it, x):
         b = x.base
         if isinstance(b, Seq):
             return truth_len(b.len)
-        if isinstance(b, DictBase):
-            return truth_len(b.keys.len)
+        if hasattr(b, "length"):
+            return truth_len(b.length())
         return True
     if isinstance(x, SymKw):
         return truth_len(x.keys.len)
@@ -217,6 +217,11 @@ def py_eq(it, a, b):
 
 
 def compare(it, op, a, b):
+    if isinstance(op, (ast.Eq, ast.NotEq, ast.Lt, ast.LtE, ast.Gt, ast.GtE)):
+        if hasattr(a, "pyvc_compare"):
+            return a.pyvc_compare(it, op, b, False)
+        if hasattr(b, "pyvc_compare"):
+            return b.pyvc_compare(it, op, a, True)
     if isinstance(op, ast.Eq):
         return py_eq(it, a, b)
     if isinstance(op, ast.NotEq):
@@ -307,6 +312,8 @@ def contains(it, coll, x):
         b = coll.base
         if isinstance(b, Seq):
             return seq_contains(it, b, x)
+        if hasattr(b, "contains"):
+            return b.contains(it, x)
         if hasattr(b, "pyvc_contains"):
             return b.pyvc_contains(it, x)
     if hasattr(coll, "pyvc_contains"):
@@ -440,6 +447,12 @@ def as_seq(it, x):
     kind, coll = iter_of(it, x)
     if kind == "concrete":
         return PyList(coll)
+    if kind == "segments":
+        acc = None
+        for sg in coll:
+            sg = PyList(sg) if isinstance(sg, list) else sg
+            acc = sg if acc is None else seq_concat(acc, sg)
+        return acc
     return coll
 
 
@@ -472,10 +485,20 @@ def iter_of(it, x):
         b = x.base
         if isinstance(b, Seq):
             return iter_of(it, b)
+        bt = it.base_type(x.cls)
+        if bt is not None and "__iter__" in bt.methods:
+            return iter_of(it, it.call(bt.methods["__iter__"], [x], {}))
         if hasattr(b, "pyvc_iter"):
             return iter_of(it, b.pyvc_iter(it))
     if isinstance(x, SymKw):
         return iter_of(it, x.keys)
+    if hasattr(x, "pyvc_segments"):
+        segs = x.pyvc_segments(it)
+        if all(isinstance(sg, list) for sg in segs):
+            return "concrete", [e for sg in segs for e in sg]
+        if len(segs) == 1:
+            return "seq", segs[0]
+        return "segments", segs
     if hasattr(x, "pyvc_iter"):
         return iter_of(it, x.pyvc_iter(it))
     raise Unsupported(f"iteration over {x!r}")
@@ -542,6 +565,8 @@ def py_len(it, x):
         b = x.base
         if isinstance(b, Seq):
             return conc(b.len)
+        if hasattr(b, "length"):
+            return conc(b.length())
         if hasattr(b, "pyvc_len"):
             return b.pyvc_len(it)
     if isinstance(x, SymKw):
@@ -765,6 +790,9 @@ def value_getattr(it, obj, name):
         return str_method(it, obj, name)
     elif isinstance(obj, SymKw):
         table = SYMKW_METHODS
+    elif isinstance(obj, PropertyObj):
+        if name == "setter":
+            return ModelFn("property.setter", lambda it_, a, k, obj=obj: PropertyObj(obj.fget, a[0]))
     elif isinstance(obj, TypeObj):
         if name in obj.methods:
             return obj.methods[name]
@@ -1249,7 +1277,9 @@ def _isinstance(it, args, kwargs):
     py = {"int": lambda v: is_intlike(v), "str": lambda v: isinstance(v, str),
           "bool": lambda v: is_boollike(v), "tuple": lambda v: isinstance(v, tuple),
           "list": lambda v: isinstance(v, (MList,)), "dict": lambda v: isinstance(v, (dict, SMap)),
-          "float": lambda v: isinstance(v, float), "AttributeDict": lambda v: False}
+          "float": lambda v: isinstance(v, float), "AttributeDict": lambda v: False,
+          "ndarray": lambda v: type(v).__name__ == "NDArr", "date": lambda v: False, "datetime": lambda v: False,
+          "timedelta": lambda v: False, "bytes": lambda v: isinstance(v, bytes)}
     if name in py:
         return py[name](x)
     if isinstance(t, ClassObj):
@@ -1276,6 +1306,8 @@ def _callable(it, args, kwargs):
     if is_v(x):
         return is_callable(x)
     if isinstance(x, (MList, Seq, SMap, SymKw, Instance)):
+        return False
+    if type(x).__name__ in ("NDArr", "DType", "Sentinel"):
         return False
     raise Unsupported(f"callable({x!r})")
 
@@ -1494,7 +1526,17 @@ def _staticmethod(it, args, kwargs):
     return StaticMethodObj(args[0])
 
 
+class Sentinel:
+    def __init__(self, name):
+        self.name = name
+
+    def __repr__(self):
+        return f"<class {self.name}>"
+
+
 def _type(it, args, kwargs):
+    if len(args) == 3:
+        return Sentinel(args[0])
     x = args[0]
     if isinstance(x, Instance):
         return x.cls
@@ -1507,7 +1549,23 @@ def _next(it, args, kwargs):
     x = args[0]
     if hasattr(x, "pyvc_next"):
         return x.pyvc_next(it)
-    raise Unsupported("next()")
+    kind, coll = iter_of(it, x)
+    if kind == "concrete":
+        if coll:
+            return coll[0]
+        if len(args) > 1:
+            return args[1]
+        raise PyRaise("StopIteration", "")
+    first = coll[0] if kind == "segments" else coll
+    if isinstance(first, list):
+        return first[0]
+    if it.ctx.branch(zint(first.len) > 0):
+        return first.at(0)
+    if kind == "segments" and len(coll) > 1:
+        raise Unsupported("next() past an empty family")
+    if len(args) > 1:
+        return args[1]
+    raise PyRaise("StopIteration", "")
 
 
 def _iter(it, args, kwargs):
@@ -1530,7 +1588,20 @@ def _attrdict(it, args, kwargs):
 
 
 ATTRDICT = TypeObj("AttributeDict", ctor=_attrdict)
-DICT_TYPE = TypeObj("dict", ctor=_dict, methods={"fromkeys": ModelFn("dict.fromkeys", _dict_fromkeys)})
+def _dict_type():
+    from .models_dict import DICT_BASE_METHODS
+    return TypeObj("dict", ctor=_dict, methods={"fromkeys": ModelFn("dict.fromkeys", _dict_fromkeys),
+                                                **DICT_BASE_METHODS, **OBJECT_METHODS})
+
+
+DICT_TYPE = None
+
+
+def _get_dict_type():
+    global DICT_TYPE
+    if DICT_TYPE is None:
+        DICT_TYPE = _dict_type()
+    return DICT_TYPE
 
 
 def make_builtins(it):
@@ -1540,7 +1611,7 @@ def make_builtins(it):
         "range": ModelFn("range", _range), "reversed": ModelFn("reversed", _reversed),
         "enumerate": ModelFn("enumerate", _enumerate), "zip": ModelFn("zip", _zip), "map": ModelFn("map", _map),
         "list": LIST_TYPE, "tuple": TypeObj("tuple", ctor=_tuple), "set": TypeObj("set", ctor=_set),
-        "dict": DICT_TYPE, "any": ModelFn("any", _any), "all": ModelFn("all", _all),
+        "dict": _get_dict_type(), "any": ModelFn("any", _any), "all": ModelFn("all", _all),
         "print": ModelFn("print", _print), "hasattr": ModelFn("hasattr", _hasattr),
         "getattr": ModelFn("getattr", _getattr), "property": ModelFn("property", _property),
         "classmethod": ModelFn("classmethod", _classmethod), "staticmethod": ModelFn("staticmethod", _staticmethod),
@@ -1616,7 +1687,8 @@ def _deepcopy(it, args, kwargs):
 
 def make_module(it, modname):
     if modname == "functools":
-        return ModuleNS("functools", {"wraps": ModelFn("functools.wraps", _wraps)})
+        return ModuleNS("functools", {"wraps": ModelFn("functools.wraps", _wraps),
+                                      "lru_cache": ModelFn("functools.lru_cache", lambda it_, a, k: ModelFn("lru_cache(..)", lambda i2, a2, k2: a2[0]))})
     if modname == "itertools":
         return ModuleNS("itertools", {"chain": ModelFn("itertools.chain", _chain)})
     if modname == "operator":
@@ -1630,7 +1702,7 @@ def make_module(it, modname):
     if modname.startswith("dataiter."):
         return it.repo_module(modname.replace(".", "/") + ".py")
     if modname in ("json", "csv", "pickle", "random", "sys", "codecs", "math", "statistics", "collections",
-                   "datetime", "numpy", "numpy.dtypes"):
+                   "datetime", "numpy", "numpy.dtypes", "warnings"):
         from . import models_lib
         return models_lib.make_module(it, modname)
     raise Unsupported(f"module {modname} not modelled")
